@@ -66,6 +66,108 @@ def parseInt (bits : Nat) (s : Str) : Except NumErr Int :=
 /-- `strconv.Atoi` on a 64-bit platform: fast path and slow path compute `ParseInt(s, 10, 0)` -/
 def atoi (s : Str) : Except NumErr Int := parseInt 64 s
 
+/-! ### base 0 (`ParseInt/ParseUint(s, 0, bits)`: prefixes 0b 0o 0x, leading 0 = octal, underscores) -/
+
+/-- `lower(c) = c | ('x' - 'X')` -/
+def lower (c : UInt8) : UInt8 := c ||| 32
+
+/-- the digit switch of `ParseUint`: value of a digit or letter, `none` = syntax error -/
+def charDigit (c : UInt8) : Option Nat :=
+  if 48 ≤ c ∧ c ≤ 57 then some (c.toNat - 48)
+  else if 97 ≤ lower c ∧ lower c ≤ 122 then some ((lower c).toNat - 97 + 10)
+  else none
+
+/-- "Look for octal, hex prefix" (`base == 0`, `s ≠ ""`): the base and the digits that follow -/
+def prefixBase (s : Str) : Nat × Str :=
+  match s with
+  | 48 :: c :: d :: r =>
+    if lower c = 98 then (2, d :: r)            -- len(s) >= 3 && lower(s[1]) == 'b'
+    else if lower c = 111 then (8, d :: r)      -- 'o'
+    else if lower c = 120 then (16, d :: r)     -- 'x'
+    else (8, c :: d :: r)
+  | 48 :: r => (8, r)
+  | _ => (10, s)
+
+/-- `maxUint64/base + 1` -/
+def cutoffB (base : Nat) : Nat := (two64 - 1) / base + 1
+
+/-- the digit loop of `ParseUint` with `base0 = true` ('_' is skipped), uint64 arithmetic -/
+def parseUintLoopB (base maxVal : Nat) : Nat → Str → Except NumErr Nat
+  | n, [] => .ok n
+  | n, c :: cs =>
+    if c = 95 then parseUintLoopB base maxVal n cs
+    else match charDigit c with
+      | none => .error .esyntax
+      | some d =>
+        if d ≥ base then .error .esyntax
+        else if n ≥ cutoffB base then .error .erange
+        else
+          let n := (n * base) % two64
+          let n1 := (n + d) % two64
+          if n1 < n || n1 > maxVal then .error .erange
+          else parseUintLoopB base maxVal n1 cs
+
+/-- loop state `i` of `underscoreOK`: '^' start, '0' digit (or base prefix), '_' underscore, '!' other -/
+inductive USt where
+  | start | digit | under | other
+deriving DecidableEq, Repr
+
+def underscoreLoop (hex : Bool) : USt → Str → Bool
+  | i, [] => i != .under
+  | i, c :: cs =>
+    if (48 ≤ c ∧ c ≤ 57) ∨ (hex ∧ 97 ≤ lower c ∧ lower c ≤ 102) then underscoreLoop hex .digit cs
+    else if c = 95 then (if i != .digit then false else underscoreLoop hex .under cs)
+    else if i == .under then false
+    else underscoreLoop hex .other cs
+
+/-- `strconv.underscoreOK` -/
+def underscoreOK (s : Str) : Bool :=
+  let s := match s with | 45 :: r => r | 43 :: r => r | _ => s       -- optional sign
+  match s with
+  | 48 :: c :: r =>
+    if lower c = 98 ∨ lower c = 111 ∨ lower c = 120 then underscoreLoop (lower c = 120) .digit r
+    else underscoreLoop false .start s
+  | _ => underscoreLoop false .start s
+
+/-- `strconv.ParseUint(s, 0, bits)`; the Go flag `underscores` (set inside the loop, looked at after
+    it) is "the digit part contains '_'" -/
+def parseUint0 (bits : Nat) (s : Str) : Except NumErr Nat :=
+  if s = [] then .error .esyntax else
+  let base := (prefixBase s).1
+  let digits := (prefixBase s).2
+  match parseUintLoopB base (2 ^ bits - 1) 0 digits with
+  | .error e => .error e
+  | .ok n => if digits.contains 95 && !underscoreOK s then .error .esyntax else .ok n
+
+/-- `strconv.ParseInt(s, 0, bits)` -/
+def parseInt0 (bits : Nat) (s : Str) : Except NumErr Int :=
+  if s = [] then .error .esyntax else
+  let neg := (splitSign s).1
+  let s' := (splitSign s).2
+  let cutoff : Nat := 2 ^ (bits - 1)
+  match parseUint0 bits s' with
+  | .error .esyntax => .error .esyntax
+  | .error .erange => .error .erange
+  | .ok un =>
+    if !neg && un ≥ cutoff then .error .erange
+    else if neg && un > cutoff then .error .erange
+    else .ok (if neg then -(un : Int) else (un : Int))
+
+/-- the number an unsigned base-0 literal denotes (no width limit): digits in the base given by the
+    prefix, '_' skipped (placement rule of `underscoreOK`), `none` if it is not such a literal -/
+def evalDigits (base : Nat) : Nat → Str → Option Nat
+  | n, [] => some n
+  | n, c :: cs =>
+    if c = 95 then evalDigits base n cs
+    else match charDigit c with
+      | none => none
+      | some d => if d ≥ base then none else evalDigits base (n * base + d) cs
+
+def numeral (s : Str) : Option Nat :=
+  if s = [] then none
+  else if (prefixBase s).2.contains 95 && !underscoreOK s then none
+  else evalDigits (prefixBase s).1 0 (prefixBase s).2
+
 /-! ### Reference semantics used by the theorems -/
 
 /-- value of a digit string read as a decimal numeral (no validity check) -/
